@@ -241,3 +241,12 @@ func vUDPPacket(from, to netip.Addr, sport, dport uint16, payload []byte) []byte
 func vDesc(d *vDatagram) string {
 	return fmt.Sprintf("#%d %s %s->%s %s/%s idx=%d ctr=%d len=%d", d.ID, d.Node, d.From, d.To, d.H.TypeName(), d.H.SubTypeName(), d.H.RemoteIndex, d.H.MessageCounter, len(d.Data))
 }
+
+// vBubble runs f in a synctest bubble. Leaving a bubble in which goroutines are still blocked makes
+// synctest panic in the calling goroutine; a harness that has already recorded those goroutines as a
+// finding recovers here so that the remaining cases still run. Returns the recovered panic value.
+func vBubble(t *testing.T, f func(t *testing.T)) (panicked any) {
+	defer func() { panicked = recover() }()
+	synctest.Test(t, f)
+	return nil
+}
